@@ -387,8 +387,14 @@ func replayMain(args []string) {
 				c = nil
 				confirmed := false
 				var detail string
+				confirmBudget := 2 * budget
+				if confirmBudget < 30*time.Second {
+					confirmBudget = 30 * time.Second
+				}
 				if c2, err := startChild(); err == nil {
-					r2, why2 := c2.roundTrip(line, 2*budget)
+					// confirmation: a fresh process and a budget that a merely busy machine
+					// cannot exhaust (a real hang costs this much once per case, at most 12 times)
+					r2, why2 := c2.roundTrip(line, confirmBudget)
 					if why2 == why {
 						confirmed = true
 						if why2 == "crash" {
@@ -410,7 +416,7 @@ func replayMain(args []string) {
 						res.Site = raceSite(stderr)
 					}
 					if why == "hang" {
-						res.Detail = fmt.Sprintf("no answer within %v (twice, second time with double budget in a fresh process)", budget)
+						res.Detail = fmt.Sprintf("no answer within %v, nor within %v in a fresh process", budget, confirmBudget)
 					} else {
 						res.Site = crashSite(stderr)
 					}
